@@ -194,6 +194,14 @@ fn kind_of(cx: &Ctx, i: usize) -> String {
 
 pub fn judge(sc: &Scenario, r: &Report) -> Outcome {
     let mut o = base_outcome(r);
+    if sc.boot.is_some() {
+        o.reach.insert("configuration_read_by_the_real_start_up_code".to_string(), 1);
+        if let Ok(d) = crate::runner::BOOT_DIFF.lock() {
+            for x in d.iter().take(3) {
+                o.notes.push(format!("start-up: {}", x));
+            }
+        }
+    }
     if sc.property == "C07" {
         c07(sc, r, &mut o);
         return o;
@@ -631,6 +639,12 @@ fn c05(cx: &Ctx, o: &mut Outcome) {
                 // client text echoed into the response can never add or split header lines
                 let mut na: Vec<String> = ra.headers.iter().map(|(n, _)| n.to_ascii_lowercase()).collect();
                 let mut nb: Vec<String> = rb.headers.iter().map(|(n, _)| n.to_ascii_lowercase()).collect();
+                // (with an allow list the grants legitimately depend on the Origin value: the benign
+                // and the hostile value of a pair need not be configured alike)
+                if cx.sc.env.iter().any(|(k, v)| k == "RWS_CONFIG_CORS_ALLOW_ALL" && v != "true") {
+                    na.retain(|n| !n.starts_with("access-control-"));
+                    nb.retain(|n| !n.starts_with("access-control-"));
+                }
                 na.sort();
                 nb.sort();
                 if na != nb && ra.code == rb.code {
